@@ -4,6 +4,7 @@ import Nstd.Seq.LemmasSort
   Refinement lemmas: every operation of the List/PoolList/Array models does to the value sequence
   what `Spec` says, and returns what `Spec` says.
 -/
+set_option linter.unusedSectionVars false
 namespace Nstd.Seq
 
 /-- projection of an operation result to what the property observes -/
@@ -138,6 +139,7 @@ theorem sort_refines (s : LState) : obsL s.sort = Spec.sort s.vals := by
 end LState
 
 namespace AState
+variable [ArrCfg]
 
 /-- storage invariant of Array: the constructed elements fit into the allocation -/
 def Ok (s : AState) : Prop :=
@@ -160,8 +162,8 @@ theorem reserve_spec (s : AState) (n : Nat) (h : s.Ok) :
     (s.reserve n).1.elems = s.elems ∧ (s.reserve n).1.Ok ∧ n ≤ (s.reserve n).1.cap ∧
     s.cap ≤ (s.reserve n).1.cap ∧ ((0 < n ∨ s.data.isSome) → (s.reserve n).1.data.isSome) := by
   obtain ⟨cap, data⟩ := s
-  have k1 : n ≤ n ||| 3 := Nat.left_le_or
-  have k2 : cap ≤ cap ||| 3 := Nat.left_le_or
+  have k1 : n ≤ n ||| ArrCfg.mask := Nat.left_le_or
+  have k2 : cap ≤ cap ||| ArrCfg.mask := Nat.left_le_or
   cases data with
   | none =>
     by_cases c : n > cap
